@@ -70,6 +70,7 @@ class Campaign:
     required_classes: Dict[str, float] = field(default_factory=dict)
     stateful: bool = False  # strategy is a RuleBasedStateMachine class factory
     sample_view: Optional[Callable[[Any], Any]] = None  # compact rendering of a case for evidence
+    fuzz_runs: int = 0  # thorough tier only: additional libFuzzer executions through Atheris (0 = none), split over 8 processes
 
 
 class Ctx:
